@@ -10,6 +10,12 @@ CHECKS = {
    note="Libraries contain only components the reference toolchain produced and validated. Generator rejections by the reference side are counted (generator_invalid) and never reported as defects. Known findings are keyed by validator-message class plus a coarse shape of the failing composition.",
    technique="property-based testing: generated libraries + stateful API histories, independent reference validator as oracle (proptest)",
    design="C01"),
+ "C02": dict(
+   category="translation_validation",
+   text="Every encodable composition produced by the C01 generators is encoded in both dependency modes, decoded by an independent payload-level reader (O-wire: no validator, no wac code) and compared with the graph read through public queries plus the list of arguments/exports the history designated: embedded components byte-identical to registered packages and one per instantiated package (or one unlocked-dep import each), instantiations compared as multisets of canonical signatures (package, node name, every argument followed through alias/export chains to its origin), each export bound to the designated item with the right kind and no extra exports, name-section entries mapped to the named nodes.",
+   note="Isomorphism is up to unnamed nodes with identical recursive signatures. Which import an implicit argument binds to is compared up to its semver track (exact naming is C03's). O-wire is trusted to read section payloads correctly (built on wasmparser::Parser only).",
+   technique="property-based testing: translation validation of generated compositions with an independent binary decoder (proptest)",
+   design="C02"),
  "C06": dict(
    category="exploration",
    text="Operation histories over the public CompositionGraph API on a tiny universe are run against a reference model written from the method docs: exhaustively for all sequences up to length 3 (quick) / 4 (thorough) over a 22-op alphabet from three start states, and randomly up to 60 ops with removal and re-creation. After every step the call's result class, every query (nodes, kinds, names, exports, imports(), arguments, alias sources, packages) and the guarded invariant hook are checked; every 4th step and at the end the graph must encode to a result class the model's state justifies and to bytes the reference validator accepts; clones are swapped in mid-history.",
